@@ -115,6 +115,21 @@ Definition acond_holds (f : fit) (a : acond) : bool :=
   | ABool attr => match lookup attr (fbools f) with Some b => b | None => false end
   end.
 
+(* the same condition in SQL's three-valued logic: a NULL column makes comparisons and LIKE
+   unknown (None); WHERE keeps a row only when the condition is true *)
+Definition acond3 (f : fit) (a : acond) : option bool :=
+  match a with
+  | AEqS attr None => Some (acond_holds f a)                       (* IS NULL is always definite *)
+  | AEqS attr (Some _) | AContains attr _ | AIn attr _ =>
+      match lookup attr (fstrs f) with
+      | Some None => None
+      | _ => Some (acond_holds f a)
+      end
+  | AEqN _ _ | ABool _ => Some (acond_holds f a)
+  end.
+Definition attrs_defined (f : fit) : bool :=
+  forallb (fun kv => match snd kv with Some _ => true | None => false end) (fstrs f).
+
 (* ------------------------------------------------------------------ *)
 (* query objects                                                       *)
 (* ------------------------------------------------------------------ *)
@@ -192,7 +207,7 @@ Fixpoint holds (f : fit) (q : qobj) (o : obj) {struct q} : bool :=
   | QType cls => match o with OInst cls' _ => String.eqb cls' cls | _ => false end
   | QNamed n inner inv =>
       xorb inv (existsb (fun nc => String.eqb (fst nc) n && in_tabs (mtabs inner) (snd nc) && holds f inner (snd nc)) (kids o))
-  | QAttr negs a => iter_negb negs (acond_holds f a)
+  | QAttr negs a => match acond3 f a with Some b => iter_negb negs b | None => false end   (* not (NULL) is NULL *)
   | QInfo negs k v => existsb (fun kv => iter_negb negs (String.eqb (fst kv) k && String.eqb (snd kv) v)) (finfo f)
   | QJ JAnd ms => forallb (fun m => holds f m o) ms
   | QJ JOr ms => existsb (fun m => holds f m o) ms
@@ -524,22 +539,25 @@ Fixpoint merge_ok (vr : variant) (ci ct : bool) (fuel : nat) (k : jk) (conds : l
 Definition junction_ok (vr : variant) (ci ct : bool) (k : jk) (conds : list qobj) : bool :=
   merge_ok vr ci ct (S (depth_list conds)) k conds.
 
-(* a predicate is `safe` when every junction met while compiling it passes junction_ok
-   (ci: no inverted NamedQuery takes part in a name merge; ct: every Or-merge is over equal
-   tables) and (cn) negation is never applied to an info test *)
-Fixpoint safe_with (vr : variant) (ci ct cn : bool) (p : pred) : bool :=
+(* a predicate is `safe` when every junction met while compiling it passes junction_ok and
+   negation is applied neither to an info test nor to a fit-attribute test *)
+Fixpoint safe_with (vr : variant) (ci ct cn ca : bool) (p : pred) : bool :=
   match p with
   | PCmp _ _ _ | PAttr _ | PInfo _ _ => true
   | PAnd a b =>
-      safe_with vr ci ct cn a && safe_with vr ci ct cn b &&
+      safe_with vr ci ct cn ca a && safe_with vr ci ct cn ca b &&
       match compile vr a, compile vr b with Ok x, Ok y => junction_ok vr ci ct JAnd [x; y] | _, _ => true end
   | POr a b =>
-      safe_with vr ci ct cn a && safe_with vr ci ct cn b &&
+      safe_with vr ci ct cn ca a && safe_with vr ci ct cn ca b &&
       match compile vr a, compile vr b with Ok x, Ok y => junction_ok vr ci ct JOr [x; y] | _, _ => true end
   | PNot a =>
-      safe_with vr ci ct cn a && (negb cn || match compile vr a with Ok (QInfo _ _ _) => false | _ => true end)
+      safe_with vr ci ct cn ca a &&
+      (negb cn || match compile vr a with Ok (QInfo _ _ _) => false | _ => true end) &&
+      (negb ca || match compile vr a with Ok (QAttr _ _) => false | _ => true end)
   end.
-Definition safe (vr : variant) (p : pred) : bool := safe_with vr true true true p.
+(* ci: no inverted NamedQuery in a name merge; ct: Or-merges over equal tables; cn: no negated info
+   test; ca: no negated fit-attribute test (needed only when an attribute column holds NULL) *)
+Definition safe (vr : variant) (p : pred) : bool := safe_with vr true true true true p.
 
 (* ~ applied to a junction (TypeError) somewhere in the predicate *)
 Fixpoint has_not_junction (vr : variant) (p : pred) : bool :=
@@ -631,13 +649,14 @@ Definition bit (b : bool) (w : N) : N := if b then w else 0%N.
 Definition case_labels_with (vr : variant) (c : case) : N :=
   let p := case_pred c in
   (bit (check_case_with vr c) 1
-   + bit (negb (safe_with vr true false false p)) 2          (* inverted NamedQuery in a name merge *)
-   + bit (negb (safe_with vr false true false p)) 4          (* Or-merge over different tables *)
+   + bit (negb (safe_with vr true false false false p)) 2          (* inverted NamedQuery in a name merge *)
+   + bit (negb (safe_with vr false true false false p)) 4          (* Or-merge over different tables *)
    + bit (has_not_junction vr p) 8                           (* ~ of a junction *)
-   + bit (negb (safe_with vr false false true p)) 16         (* ~ of an info test *)
+   + bit (negb (safe_with vr false false true false p)) 16         (* ~ of an info test *)
    + bit (match compile vr p with Err EAssertion => true | _ => false end) 32
    + bit (model_exact vr c) 64
-   + bit (slices_exact vr c) 128)%N.
+   + bit (slices_exact vr c) 128
+   + bit (negb (safe_with vr false false false true p) && negb (forallb attrs_defined (case_db c))) 256)%N.   (* negated attribute test, NULL column *)
 Definition case_labels := case_labels_with current.
 (* variants used when a proposed repair is tried on a scratch copy (VERIF_C10_VARIANT) *)
 Definition case_labels_repaired := case_labels_with repaired.
